@@ -11,8 +11,9 @@ RULE = ("translation validation: declared widths, default split and the add_regi
         "n <= 7/9 (circuits of up to hundreds of qubits are built, not simulated); direct evaluation (harness/props/c11_eval.py): "
         "exact marginals of the output qubits, s = n equality up to global phase; gate-list correspondence of DcspInitialize with DcspModel.bottom_up_q on the "
         "captured angle tree, n <= 5/7, with the executable premises of C11_dcsp_marginal and the numerical splitting premise of C11_path_weight. distinct = distinct (class, n, s); non-trivial = n >= 2")
-ASSUMPTIONS = ["the marginal-distribution claim is proved for the divide-and-conquer initializer (C11_dcsp_marginal) and for split = n (C01); for the "
-               "bidirectional variant with 1 <= s < n it is evaluated (simulation up to 20/24 qubits), not proved",
+ASSUMPTIONS = ["the marginal-distribution claim is proved for the divide-and-conquer initializer (C11_dcsp_marginal), for split = n (C01) and for the "
+               "bidirectional variant with 1 <= s < n (C11_bdsp_marginal) under the numerically checked premises that every sub-register circuit "
+               "prepares a normalised state carrying the squared amplitudes of its sub-vector",
                "Qiskit's ry, rz, cswap are the matrices of Dcsp.dapp",
                "add_register's tree walk visits a complete binary tree with 2^l nodes on level l (validated by the definition widths)"]
 TRUSTED = ["harness/translate.py gen_width(): expression translation of the width formulas, shape check of the counting statements"]
@@ -179,10 +180,122 @@ def dcsp_correspondence(ctx):
                    shard=10)
 
 
+def bdsp_correspondence(ctx):
+    """BdspInitialize with 1 <= split < n: the angle tree the gate walks (captured at tree_walk.bottom_up) becomes a
+    DcspModel.qtree whose leaves are the sub-registers below the split, each with the sub-circuit the definition itself applies
+    to it (taken from the flattened definition, not modelled); inside Coq the model's gate list bdsp_gates_q (sub-circuits in
+    tree order, then the bottom-up part) must equal the flattened definition, and the executable premises of C11_bdsp_marginal
+    (balanced, distinct qubits, sub-circuits local to their registers, output chain = output register) are evaluated.  The
+    numerical premises - every node splits the squared norm of its sub-vector, every sub-register state has squared amplitudes
+    M(p ++ k) / M(p) and norm one - are checked at 1e-9 by simulating each sub-circuit alone."""
+    from fractions import Fraction
+    from qiskit import QuantumCircuit
+    from qiskit.quantum_info import Statevector
+    import qclib.state_preparation.bdsp as B
+    from harness.flatten import flatten, coq_q, coq_list
+    from harness import monitors
+    from harness.props import c01
+    nmax = 4 if ctx.quick else 6
+    cases, lines = [], []
+    for n in range(2, nmax + 1):
+        for split in range(1, n):
+            for kind in c01.KINDS:
+                v = c01.vector(ctx.rng, n, kind)
+                seen = {}
+
+                def factory(orig):
+                    def wrapped(angle_tree, circuit, start_level):
+                        seen["tree"], seen["circuit"], seen["start"] = angle_tree, circuit, start_level
+                        return orig(angle_tree, circuit, start_level)
+                    return wrapped
+                with monitors.patched(B, "bottom_up", factory):
+                    circ = B.BdspInitialize(v, opt_params={"split": split}).definition
+                tree, tc, start = seen["tree"], seen["circuit"], seen["start"]
+                case = {"class": "BdspInitialize", "n": n, "split": split, "family": kind}
+                bad = []
+                fl, phase = flatten(circ)
+
+                def gate_item(name, qs, op):
+                    if name in ("ry", "rz"):
+                        return f"Q{name.upper()} {coq_q(Fraction(float(op.params[0])))} {qs[0]}"
+                    if name == "cx":
+                        return f"QEnt Sem.EntCX {qs[0]} {qs[1]}"
+                    if name == "cz":
+                        return f"QEnt Sem.EntCZ {qs[0]} {qs[1]}"
+                    if name == "cswap":
+                        return f"QCSWAP {qs[0]} {qs[1]} {qs[2]}"
+                    return "QCSWAP 99999 99999 99999"
+
+                def chain_of(t):
+                    out = []
+                    while t is not None:
+                        out.append(tc.find_bit(t.qubit).index)
+                        t = t.left if t.left is not None else t.right
+                    return out
+
+                def sub_vector(prefix):
+                    span = 2 ** (n - len(prefix))
+                    j = int("".join(prefix), 2) if prefix else 0
+                    return v[j * span:(j + 1) * span]
+
+                def lit(t, prefix):
+                    if t is None:
+                        return "QLeaf"
+                    sub = np.abs(sub_vector(prefix)) ** 2
+                    m = float(sub.sum())
+                    if t.level >= start:
+                        qs = chain_of(t)
+                        gates = [(nm, q, op) for (nm, q, op) in fl if nm != "cswap" and set(q) <= set(qs)]
+                        # numerical premises on the sub-register state
+                        loc = {q: i for i, q in enumerate(qs)}
+                        qc = QuantumCircuit(len(qs))
+                        for nm, q, op in gates:
+                            qc.append(op, [loc[x] for x in q])
+                        sa = np.asarray(Statevector(qc).data)
+                        if abs(float(np.sum(np.abs(sa) ** 2)) - 1) > 1e-9:
+                            bad.append("a sub-register state is not normalised")
+                        for kidx in range(2 ** len(qs)):
+                            bits = format(kidx, f"0{len(qs)}b")                  # root qubit (qs[0]) first = most significant
+                            li = sum((1 << loc[qs[j]]) for j in range(len(qs)) if bits[j] == "1")
+                            if abs(abs(sa[li]) ** 2 * m - float(sub[kidx])) > 1e-9:
+                                bad.append("a sub-register state does not carry the squared amplitudes of its sub-vector")
+                                break
+                        return f"(QSub {coq_list([str(q) for q in qs])} {coq_list([gate_item(*g) for g in gates])})"
+                    q = tc.find_bit(t.qubit).index
+                    half = len(sub) // 2
+                    m0, m1 = float(sub[:half].sum()), float(sub[half:].sum())
+                    w0, w1 = np.cos(t.angle_y / 2) ** 2, np.sin(t.angle_y / 2) ** 2
+                    if abs(w0 * m - m0) > 1e-9 or abs(w1 * m - m1) > 1e-9:
+                        bad.append("a node's cos^2 / sin^2 do not split the squared norm of its sub-vector")
+                    return (f"(QNode {q} {coq_q(Fraction(float(t.angle_y)))} {coq_q(Fraction(float(t.angle_z)))} "
+                            f"{lit(t.left, prefix + ['0'])} {lit(t.right, prefix + ['1'])})")
+                T = lit(tree, [])
+                ctx.monitor("bdsp_split_contract")
+                if start != n - split:
+                    bad.append("bottom_up is not called with start_level = n - split")
+                if abs(phase) > 1e-12:
+                    bad.append("the definition carries a global phase")
+                items = [gate_item(*g) for g in fl]
+                ctx.max_struct_qubits = max(ctx.max_struct_qubits, circ.num_qubits)
+                cases.append(case)
+                ctx.count("corr:bdsp:" + kind, key=("bdsp", n, split, kind, v.tobytes()), nontrivial=True,
+                          sample=dict(case, gates=len(items), qubits=circ.num_qubits) if (n, split) == (3, 2) else None)
+                out = coq_list([str(q) for q in range(n - 1, -1, -1)])
+                lines.append(f"(list_eqb qgate_eqb (bdsp_gates_q {T}) {coq_list(items)} && qbalanced {n} {T} && nodupb (qqubits {T}) "
+                             f"&& localb {T} && list_eqb Nat.eqb (qchain {T}) {out})")
+                if bad:
+                    ctx.mismatch("C11 contract (bdsp): " + bad[0], case)
+    run_bool_cases(ctx, "c11_bdsp", DHEADER, lines, cases,
+                   lambda c: ctx.mismatch("C11 correspondence: BdspInitialize differs from DcspModel.bdsp_gates_q on its own angle tree, or "
+                                          "a premise of C11_bdsp_marginal (balanced tree, distinct qubits, local sub-circuits, output chain) fails", c),
+                   shard=10)
+
+
 def run(ctx):
     tv(ctx)
     split_n_correspondence(ctx)
     dcsp_correspondence(ctx)
+    bdsp_correspondence(ctx)
     run_eval(ctx, "C11")
 
 
@@ -202,12 +315,14 @@ def replay(ctx, case):
 
 MANIFEST = dict(
     text=("Proof: (widths) declared widths and the add_register allocation count, regenerated from the source, satisfy (s+1)2^(n-s)-1 and 2^n-1 for all n and "
-          "1<=s<=n, and s=n uses no ancilla (C11_bdsp_*, C11_dcsp_declared_allocated, C11_split_n_no_ancilla, C11_default_split); (measurement statistics of the "
-          "divide-and-conquer initializer) for every balanced angle tree with distinct qubits and any angles, the model's gate list run from |0..0> gives, summed over "
-          "all ancillas, squared modulus = product of cos^2/sin^2 along the path on the output qubits (C11_dcsp_marginal, C11_weights, C11_dcsp_norm), which is "
-          "|a_k|^2 when every node splits the squared norm of its sub-vector (C11_path_weight). Tie: translator for the widths; the angle tree DcspInitialize really "
-          "walks is compared inside Coq (gate list of the definition = DcspModel.bottom_up_q, premises balanced / distinct qubits / output chain evaluated), the "
-          "splitting premise is checked numerically; split = n is compared with the top-down model (C01). General split levels of the bidirectional variant are evaluated."),
-    note='Modelled, not verified: the bidirectional variant for 1 <= s < n (top-down sub-circuits under a bottom-up top: evaluated exactly); Qiskit ry/rz/cswap matrices.',
-    technique='Coq proof (frame lemma for sub-circuits, sums over qubit registers, re-indexing through controlled swaps; geometric sums over Z) + translator-regenerated formulas + gate-list correspondence (vm_compute) + exact marginal evaluation',
+          "1<=s<=n, and s=n uses no ancilla (C11_bdsp_*, C11_dcsp_declared_allocated, C11_split_n_no_ancilla, C11_default_split); (measurement statistics) for every "
+          "balanced angle tree with distinct qubits and any angles, the model's gate list run from |0..0> gives, summed over all ancillas, squared modulus = product of "
+          "cos^2/sin^2 along the path on the output qubits - for the divide-and-conquer initializer (C11_dcsp_marginal) and for the bidirectional one with 1<=s<n, where "
+          "the leaves are sub-registers prepared by arbitrary circuits local to them and contribute the squared amplitude of their state (C11_bdsp_marginal, premise: "
+          "those states have norm one); C11_weights, C11_norm; the product is |a_k|^2 when every node splits the squared norm of its sub-vector and every sub-register "
+          "state carries the squared amplitudes of its sub-vector (C11_path_weight). Tie: translator for the widths; the angle tree the gate really walks is compared "
+          "inside Coq (flattened definition = DcspModel.bdsp_gates_q, premises balanced / distinct qubits / local sub-circuits / output chain evaluated); the numerical "
+          "premises are checked at 1e-9 (sub-circuits simulated alone); split = n is compared with the top-down model (C01)."),
+    note="Modelled, not verified: that the top-down sub-circuits of the bidirectional variant prepare the normalised sub-vectors (numerical premise here; the top-down algorithm itself is C01/C13); Qiskit ry/rz/cx/cswap matrices.",
+    technique='Coq proof (frame lemmas for local sub-circuits, sums over qubit registers, re-indexing through controlled swaps; geometric sums over Z) + translator-regenerated formulas + gate-list correspondence (vm_compute) + numerical premises + exact marginal evaluation',
     design_ref='DESIGN.md section 4, C11')
